@@ -586,3 +586,83 @@ class C14ValueOrder(E2Harness):
         nan = self.nan_involved(vals)
         self.require(ex, zb(nan), msg)        # without NaN this must not happen
         self.require(ex, znot(nan), msg + ' (NaN)', known_key='C14-float-nan-compares-equal')
+
+
+# =====================================================================================================
+# C19 (validators that build heap containers, out of CBMC's reach): validator MIR == reference DFA
+# =====================================================================================================
+@register
+class C19Validator(E2Harness):
+    fn = 'regex::validate_regex_15'
+    n = 4
+    dfa = None           # dict(cls=[256], trans=[[..]], accept=[..]) from tools/regex_dfa.py
+    native = ('spec', 'n_c19_validator')
+    part = None
+    entry = 0
+
+    def ref_accepts(self, bs):
+        """reference automaton over symbolic bytes as one z3 term (no forking); the same term on every path"""
+        if getattr(self, '_ref', None) is None:
+            self._ref = self._ref_accepts(bs)
+        return self._ref
+
+    def _ref_accepts(self, bs):
+        d = self.dfa
+        ncls = len(d['trans'][0])
+        nst = len(d['trans'])
+        # class of a byte: ite chain over the 256-entry class table, compressed into ranges
+        def cls_of(b):
+            ranges = []
+            start = 0
+            for v in range(1, 257):
+                if v == 256 or d['cls'][v] != d['cls'][start]:
+                    ranges.append((start, v - 1, d['cls'][start]))
+                    start = v
+            e = z3.IntVal(ranges[-1][2])
+            for lo, hi, c in reversed(ranges[:-1]):
+                e = z3.If(z3.ULE(b, hi), z3.IntVal(c), e)
+            return e
+        st = z3.IntVal(0)
+        for b in bs:
+            c = cls_of(b)
+            nxt = z3.IntVal(d['dead'] if d.get('dead') is not None else 0)
+            for s in range(nst):
+                for k in range(ncls):
+                    t = d['trans'][s][k]
+                    if t == d.get('dead'):
+                        continue
+                    nxt = z3.If(z3.And(st == s, c == k), z3.IntVal(t), nxt)
+            st = z3.simplify(nxt)
+        acc = [s for s in range(nst) if d['accept'][s]]
+        return z3.simplify(z3.Or(*[st == s for s in acc])) if acc else z3.BoolVal(False)
+
+    def run(self, ex):
+        self.bs = sym_bytes('b', self.n)
+        if self.part is not None:
+            i, k = self.part
+            if self.n == 0:
+                if i != 0:
+                    raise Infeasible()
+            else:
+                ex.assume(z3.URem(self.bs[0], k) == i)
+        r = ex.call(self.fn, [Slice(self.bs, 0, self.n, False)])
+        return r
+
+    def replay_vals(self, m):
+        return [le_bytes(self.entry, 8), le_bytes(self.n, 8)] + [[x] for x in model_bytes(m, self.bs)]
+
+    def describe(self, m):
+        return repr(bytes(model_bytes(m, self.bs)))
+
+    def prop(self, out, ex):
+        if out[0] == 'panic':
+            self.require(ex, False, 'validator panicked: ' + out[1])
+            return
+        got = out[1]
+        want = self.ref_accepts(self.bs)
+        if isinstance(got, bool):
+            self.cover('accepts' if got else 'rejects')
+            self.require(ex, want if got else z3.Not(want), 'validator and published regex disagree')
+        else:
+            self.cover('symbolic verdict')
+            self.require(ex, got == want, 'validator and published regex disagree')
